@@ -33,6 +33,12 @@ Definition i16 (x : Z) : Z := (x + 32768) mod 65536 - 32768.
 Definition i32 (x : Z) : Z := (x + 2147483648) mod 4294967296 - 2147483648.
 Definition i64 (x : Z) : Z := (x + 9223372036854775808) mod 18446744073709551616 - 9223372036854775808.
 
+(* x << n and x >> n (n >= 0 is guarded by the translator for signed counts). A count of 64 or more
+   gives 0 (resp. the sign) in every width up to 64 bits; written as a case so that evaluation never
+   builds 2^n for a huge n. The result of shl is wrapped by the translator with the result type. *)
+Definition shl (x n : Z) : Z := if 64 <=? n then 0 else Z.shiftl x n.
+Definition shr (x n : Z) : Z := if 64 <=? n then (if x <? 0 then -1 else 0) else Z.shiftr x n.
+
 (* len(s) and s[i] (the translator guards every s[i] with `(i <? 0) || (len s <=? i)` -> Panic) *)
 Definition len {A : Type} (s : list A) : Z := Z.of_nat (length s).
 Definition idx (s : list Z) (i : Z) : Z := nth (Z.to_nat i) s 0.
